@@ -389,11 +389,14 @@ pub fn parse_term(to_parse: &str) -> Result<Unifiable, String> {
         return Ok(sfunc);
     }
 
-    for ch in &chrs {
+    for (i, ch) in chrs.iter().enumerate() {
         if *ch >= '0' && *ch <= '9' {
             has_digit = true;
         } else if *ch == '.' {
             has_period = true;
+        } else if i == 0 && (*ch == '-' || *ch == '+') {
+            // A plus or minus in front might be the sign of
+            // a number: +7, -3.8. (As in parse_arguments().)
         } else {
             has_non_digit = true;
         }
